@@ -311,7 +311,7 @@ def execute(plan):
             inv, why = _accepted_value_problem(wl, decname, dec, v, kw)
             if inv:
                 raise W.Violation(inv, why=why, input_hex=b.hex()[:300], mode=plan['mode'], pristine=pristine,
-                                  exc_cls=_sig_part(inv, why))
+                                  exc_cls=_sig_part(inv, why), result_has_time=_contains_time(v))
     except W.Violation as viol:
         sig = [viol.invariant, viol.detail.get('exc_cls'), decname]
         return common.violation_result(viol, sig, trace, ctr, None, None, {'kind': 'bytes'}, wl)
@@ -324,6 +324,34 @@ def execute(plan):
     nontrivial = bool(results) and (not pristine or constrained)
     res = common.ok_result(trace, ctr, None, nontrivial)
     return res
+
+
+def _contains_time(obj, depth=0):
+    """Does the accepted value hold a GeneralizedTime/UTCTime anywhere (also where the type declares none: a
+    component-less SET/SEQUENCE takes whatever arrives)?  Used only to recognise the open finding F15."""
+    useful, univ = U.p.useful, U.p.univ
+    if depth > 12:
+        return False
+    if isinstance(obj, (useful.GeneralizedTime, useful.UTCTime)):
+        return True
+    if isinstance(obj, univ.Choice):
+        try:
+            return _contains_time(obj.getComponent(), depth + 1)
+        except Exception:
+            return False
+    if isinstance(obj, (univ.Sequence, univ.Set, univ.SequenceOf, univ.SetOf)):
+        try:
+            n = len(obj.componentType) if isinstance(obj, (univ.Sequence, univ.Set)) and len(obj.componentType) else len(obj)
+        except Exception:
+            return False
+        for i in range(n):
+            try:
+                c = obj.getComponentByPosition(i, default=None, instantiate=False)
+            except Exception:
+                c = None
+            if c is not None and _contains_time(c, depth + 1):
+                return True
+    return False
 
 
 def _sig_part(inv, why):
